@@ -93,6 +93,33 @@ CHECKS["C17"] = ("writer/reader convention agreement (phases, vertex types, Hada
     "that `move` records exactly the permutation its swaps realise with the moved wire keeping its label, that inputs are sorted and gathered right of the first, the legs / whiskers / Hadamards of each imported vertex and that outputs are "
     "routed from a leg not yet placed. pyzx's own tensor semantics, graphs with parallel edges and the scalar on import are not decided; pyzx is never imported.",
     TB, "DESIGN.md §4 C17")
+# rules added after the blind-spot survey (DESIGN.md §15); appended to the level text of the property
+ADDENDA = {
+    "C02": "Also: arrow[:i] >> arrow[i:] recomposes for every depth i (bounded fold of cat.Arrow.__getitem__ on 0-3 boxes, i in -5..5); every Sum.upgrade keeps terms, dom and cod.",
+    "C03": "Also: each stored constructor parameter is printed in its own positional / keyword place (incl. optional tails and names computed in __init__); __eq__ reads fields of `other` only after a positive class test.",
+    "C05": "Also: a result built without the precomputed layers (the constructor rescans) is judged on boxes and offsets alone.",
+    "C09": "Also: the contractor path (to_tn wiring, result typed by the diagram), Box.array layout, Tensor.zeros, Diagram.spiders, and the typing of bubbles by their inside in cat / monoidal / tensor.",
+    "C10": "Also: every Swap box class initialises its Swap base on (left, right) and re-types itself by its own name / dom / cod; int arguments are upgraded only when they are not types; default domains replace only None.",
+    "C11": "Also: scalars are self-adjoint exactly when real and dagger to the conjugate; digits / bits are states by default and turn their type around as effects; controlled gates are built in a complex array; "
+           "depends on C12 R12.6 (a pure circuit, swaps included, is not mixed).",
+    "C12": "Also: overwriting measurements discard the old bits exactly then; CQMap.__init__ / utensor / __add__; the pure branch of Circuit.measure; get_counts entries; index2bitstring is a bijection onto the bitstrings "
+           "(folded for lengths 0-4); Ty.count (folded); mode of sums; functor choice; mixedness of Scalar / MixedScalar / Sqrt by abstract construction; mixedness of swaps.",
+    "C13": "Also: R13.12 Ty.count (C12); R13.13 the Swap handler and the swap helper; R13.14 the counts pipeline of tk.Circuit.get_counts (options, normalise before post-select, filter, key, scale); "
+           "R13.15 Measure(qubit, bit) per wire, post-selected digit, discarded bits; composability of every post_process call; exportable daggers of table gates; from_tk wires and make_units_adjacent start / iteration.",
+    "C14": "Also: R14.4 a box is returned unchanged only when no substituted symbol occurs in it; sympy.lambdify is called (symbols, expression) in every rebuild and in Tensor.lambdify.",
+    "C15": "Also: jacobians of Tensor / Diagram / Circuit (prelude, row, early exits), Tensor.grad and Box.grad functions, the inner derivative of every rotation / spider rule, helper scalar()/sqrt(), the projector helper, "
+           "type of ClassicalGate.grad; depends on C09 R09.7 (a gradient bubble has the type of its box).",
+    "C16": "Also: R16.5 the generators (Z / X / Y(m, n, phase=0): legs, phase as data; H 1 -> 1; scalars) are built the way the reference algebra reads them; every case of gate2zx is selected by a positive class test.",
+    "C17": "Also: the helpers move / make_wires_adjacent are called and return in the order their callers unpack; depends on C16 R16.5.",
+    "C18": "Also: every rule box and Curry is typed by its computed (dom, cod) in this order; Curry keeps diagram / n_wires / left.",
+    "C19": "Also: Id(n) is the diagram on n wires without boxes and Diagram.id returns it; type errors in the folded constructors are reported as such.",
+    "C20": "Also: which ports of a bubble border are joined to the box node; nx2diagram's classification of nodes by kind and its start; diagramize refuses exactly ill-typed wires, numbers its applications, hands the factories on.",
+}
+RULE_N = (" Rule N (every property): every name read by a function the check analysed, or reachable from one by name inside the anchor files, is bound (decided with the standard symtable module; "
+          "global / nonlocal / del / star imports / exec make the rule an analysis error).")
+for _pid in list(CHECKS):
+    _t = CHECKS[_pid]
+    CHECKS[_pid] = (_t[0], _t[1] + (" " + ADDENDA[_pid] if _pid in ADDENDA else "") + RULE_N, _t[2], _t[3])
 NOT_YET = "check not built yet in this round (static rules designed in DESIGN.md §4; will be claimed when the rule module lands)"
 NOT_APPLICABLE = {("C%02d" % i): NOT_YET for i in range(1, 21) if ("C%02d" % i) not in CHECKS}
 NOTES = ("All checks are static analyses of /repo/discopy's source (python -m sa.check <id>); exit 0 / 1 (VIOLATION) / 2 (ANALYSIS-ERROR). "
